@@ -20,6 +20,9 @@ Record case := mk_case {
   o_array : list row;                     (* Find into an array (first RowsAffected elements) *)
   o_single : option row; o_single_ra : Z; (* Find into one struct: the first row *)
   o_prim : option Z; o_prim_ra : Z;       (* Select(id).Scan into one integer: keeps the last row *)
+  o_scanmaps : list row; o_scanmaps_ra : Z;   (* Scan into a slice of maps *)
+  o_rowsmaps : list row;                      (* Rows + ScanRows into a slice of maps, row by row *)
+  o_firstmap : option row; o_lastmap : option row; o_takemap : option row;  (* single-record finders into a map *)
   o_errs : Z  (* number of unexpected errors reported by any path *)
 }.
 
@@ -33,6 +36,10 @@ Definition model_agrees (c : case) : bool :=
   && (o_find_ra c =? Z.of_nat (length f))
   && rows_eqb (o_maps c) f && rows_eqb (o_rows c) f && rows_eqb (o_scan c) f
   && rows_eqb (o_ptrs c) f && rows_eqb (o_array c) f
+  && rows_eqb (o_scanmaps c) f && (o_scanmaps_ra c =? Z.of_nat (length f)) && rows_eqb (o_rowsmaps c) f
+  && orow_eqb (o_firstmap c) (first_ (c_tbl c) (c_cond c) (c_ord c) st)
+  && orow_eqb (o_lastmap c) (last_ (c_tbl c) (c_cond c) (c_ord c) st)
+  && orow_eqb (o_takemap c) (take_ (c_tbl c) (c_cond c) (c_ord c) st)
   && orow_eqb (o_single c) (hd_error f) && (o_single_ra c =? (if match f with [] => true | _ => false end then 0 else 1))
   && option_eqb Z.eqb (o_prim c) (option_map fst (hd_error (rev f))) && (o_prim_ra c =? Z.of_nat (length f))
   && zlist_eqb (o_pluck_id c) (map fst f) && zlist_eqb (o_pluck_v c) (map snd f)
@@ -78,6 +85,9 @@ Definition spec_holds (c : case) : bool :=
   && rows_eqb (o_maps c) f && rows_eqb (o_rows c) f && rows_eqb (o_scan c) f
   && zlist_eqb (o_pluck_id c) (map fst f) && zlist_eqb (o_pluck_v c) (map snd f)
   && rows_eqb (o_ptrs c) f && rows_eqb (o_array c) f
+  && rows_eqb (o_scanmaps c) f && (o_scanmaps_ra c =? Z.of_nat (length f)) && rows_eqb (o_rowsmaps c) f
+  (* single-record finders agree whatever the destination kind (struct or map), incl. not-found *)
+  && orow_eqb (o_firstmap c) (o_first c) && orow_eqb (o_lastmap c) (o_last c) && orow_eqb (o_takemap c) (o_take c)
   && orow_eqb (o_single c) (hd_error f)
   && option_eqb Z.eqb (o_prim c) (option_map fst (hd_error (rev f))) && (o_prim_ra c =? Z.of_nat (length f))
   && (o_find_ra c =? Z.of_nat (length f))
